@@ -257,7 +257,14 @@ class Dumper {
       }
 
       if (auto* I = dyn_cast<IfStmt>(S)) {
-        if (I->isConstexpr()) J.attribute("constexpr", true);
+        if (I->isConstexpr()) {
+          J.attribute("constexpr", true);
+          // in an instantiation the condition is a constant: record which arm survives
+          if (I->getCond() && !I->getCond()->isValueDependent()) {
+            bool V = false;
+            if (I->getCond()->EvaluateAsBooleanCondition(V, Ctx)) J.attribute("cv", V);
+          }
+        }
         if (I->getInit()) named("init", I->getInit());
         if (I->getConditionVariable()) {
           J.attributeBegin("condvar");
@@ -596,6 +603,7 @@ class Dumper {
       J.attribute("inst", inst);
       J.attribute("kind", specialKind(FD));
       J.attribute("ret", typeStr(FD->getReturnType()));
+      if (!FD->getReturnType()->isDependentType()) J.attribute("retc", canonStr(FD->getReturnType()));
       if (inst == 1) J.attribute("targs", templateArgs(FD));
       if (auto* M = dyn_cast<CXXMethodDecl>(FD)) {
         J.attribute("cls", qualName(M->getParent()));
